@@ -230,6 +230,26 @@ func nodifyStrucType(nodes []Node) Node {
 	return NewStructType(name, members)
 }
 
+// nodifyTupleOrStructType builds a tuple, or a structure when the
+// optional annotation "<" name members ">" follows the member types.
+func nodifyTupleOrStructType(nodes []Node) Node {
+	annotation, ok := nodes[3].([]Node)
+	if !ok {
+		return nodifyTupleType(nodes[:3])
+	}
+	if len(annotation) == 1 {
+		// Maybe wraps the nodes of the annotation into a list.
+		if inner, ok := annotation[0].([]Node); ok {
+			annotation = inner
+		}
+	}
+	if len(annotation) != 4 {
+		return fmt.Errorf("wrong structure annotation %+v", annotation)
+	}
+	return nodifyStrucType([]Node{nodes[0], nodes[1], nodes[2],
+		annotation[0], annotation[1], annotation[2], annotation[3]})
+}
+
 func init() {
 
 	var arrayType parsec.Parser
@@ -237,8 +257,10 @@ func init() {
 	var structType parsec.Parser
 	var tupleType parsec.Parser
 
+	var tupleOrStructType parsec.Parser
+
 	var declarationType = parsec.OrdChoice(nil,
-		basicType(), &mapType, &arrayType, &structType, &tupleType)
+		basicType(), &mapType, &arrayType, &tupleOrStructType)
 
 	arrayType = parsec.And(nodifyArrayType,
 		parsec.Atom("[", "MapStart"),
@@ -268,10 +290,28 @@ func init() {
 		&typeMemberList,
 		parsec.Atom(">", "TypeDefinitionClose"))
 
+	// a tuple and a structure share the same prefix "(" types ")":
+	// parse it once, then the optional structure annotation. Trying
+	// the structure first and the tuple second parsed every nested
+	// parenthesis twice, which is exponential in the nesting depth.
+	var structAnnotation = parsec.And(nil,
+		parsec.Atom("<", "TypeDefinitionStart"),
+		structName(),
+		&typeMemberList,
+		parsec.Atom(">", "TypeDefinitionClose"))
+
+	tupleOrStructType = parsec.And(nodifyTupleOrStructType,
+		parsec.Atom("(", "TypeParameterStart"),
+		&listType,
+		parsec.Atom(")", "TypeParameterClose"),
+		parsec.Maybe(nil, structAnnotation))
+
 	mapType = parsec.And(nodifyMap,
 		parsec.Atom("{", "MapStart"),
 		&declarationType, &declarationType,
 		parsec.Atom("}", "MapClose"))
+
+	_, _ = structType, tupleType
 
 	typeSignature = declarationType
 }
